@@ -239,7 +239,7 @@ func (c *Ctx) sort1(t types.Type) string {
 		var fs []string
 		for i := 0; i < u.NumFields(); i++ {
 			f := u.Field(i)
-			fs = append(fs, fmt.Sprintf("(%s %s)", q(name+"."+f.Name()), c.Sort(f.Type())))
+			fs = append(fs, fmt.Sprintf("(%s %s)", q(name+"."+fieldName(u, i)), c.Sort(f.Type())))
 		}
 		if len(fs) == 0 {
 			c.Decl("sort "+name, fmt.Sprintf("(declare-datatypes ((%s 0)) (((%s))))", qn, q("mk."+name)))
@@ -254,13 +254,22 @@ func (c *Ctx) sort1(t types.Type) string {
 	return "Int"
 }
 
+// fieldName: blank fields get positional names
+func fieldName(st *types.Struct, i int) string {
+	n := st.Field(i).Name()
+	if n == "_" || n == "" {
+		return fmt.Sprintf("_%d", i)
+	}
+	return n
+}
+
 // struct helpers
 func structName(t types.Type) string { return "S." + sanitize(typeKey(t)) }
 
 func (c *Ctx) StructSel(t types.Type, i int, v string) string {
 	st := t.Underlying().(*types.Struct)
 	c.Sort(t)
-	return fmt.Sprintf("(%s %s)", q(structName(t)+"."+st.Field(i).Name()), v)
+	return fmt.Sprintf("(%s %s)", q(structName(t)+"."+fieldName(st, i)), v)
 }
 
 func (c *Ctx) StructMk(t types.Type, fields []string) string {
